@@ -540,6 +540,17 @@ func (m *c03Monitor) AfterBeginBlock(r *Run, ctx sdk.Context) {
 
 func (m *c03Monitor) BeforeTx(r *Run, ctx sdk.Context, tx *BuiltTx) { m.pre = r.Ledger(ctx) }
 
+// AfterDirect: a direct slash call behaves like the slashing part of BeginBlock.
+func (m *c03Monitor) AfterDirect(r *Run, ctx sdk.Context, op Op) {
+	cur := r.Ledger(ctx)
+	m.unchanged(r, m.last, cur, "direct-slash", true)
+	if len(cur.Records) != len(m.last.Records) && r.Viol == nil {
+		r.Violate(m.Name(), "one-record-per-accepted-undelegation", "direct-slash", fmt.Sprintf("record count changed %d -> %d in a slash", len(m.last.Records), len(cur.Records)))
+	}
+	m.aggregates(r, cur, "direct-slash")
+	m.last = cur
+}
+
 func (m *c03Monitor) AfterTx(r *Run, ctx sdk.Context, tx *TxResult) {
 	cur := r.Ledger(ctx)
 	pre := m.pre
